@@ -150,6 +150,12 @@ let () =
               let u = universe s in let p = problem s in let g = graph s in
               let up = table_provider u in
               Printf.sprintf "%s %s %s" (b (truthfulb up p g)) (b (reachableb g)) (b (refutesb up g))
+            | "gbuild" ->
+              (* U db core graph -> model graph equals the implementation's graph [model nodes edges] *)
+              let u = universe s in let db = rep s clause in let core = nlist s in let g = graph s in
+              let up = table_provider u in
+              let m = build_graph up (core_clauses db core) in
+              Printf.sprintf "%s %d %d" (b (check_graph_build up db core g)) (List.length m.g_nodes) (List.length m.g_edges)
             | "core" ->
               (* log core-ids -> core clause set (with the root) is unsatisfiable *)
               let lg = log s in let core = nlist s in
